@@ -32,6 +32,9 @@ struct Call {
     resp_len: usize,
     handler_ms: u64,
     start_ms: u64,
+    /// the handler is CPU-bound for this long from its start (it can be neither polled nor
+    /// dropped meanwhile)
+    hold_ms: u64,
 }
 
 #[derive(Clone, Debug, Default)]
@@ -103,6 +106,9 @@ fn run(input: RunInput) -> ScenFuture {
         }
         w.fabric.set_default_link(link);
 
+        // in some runs a part of the handlers is CPU-bound for a while after starting
+        let cpu_bound = w.flag("cpu_bound_handlers", 0.3);
+        let mut r_cpu = w.rng("wl:cpu-bound");
         // plan the calls
         let mut r = w.rng("wl:calls");
         let mut calls = Vec::new();
@@ -133,6 +139,7 @@ fn run(input: RunInput) -> ScenFuture {
                 resp_len: if big_resp { r.gen_range(50_000..400_000) } else { r.gen_range(0..2000) },
                 handler_ms: if abandon { handler_ms } else { handler_ms.min(800) },
                 start_ms: if spread_ms == 0 { 0 } else { r.gen_range(0..=spread_ms) },
+                hold_ms: if cpu_bound && r_cpu.gen_bool(0.3) { r_cpu.gen_range(5..2_000) } else { 0 },
             });
         }
         let results: Arc<Mutex<Vec<CallResult>>> = Arc::new(Mutex::new(vec![CallResult::default(); n_calls as usize]));
@@ -144,6 +151,7 @@ fn run(input: RunInput) -> ScenFuture {
                 let mut req = Request::new(body_for(w2.seed, c.nonce, c.req_len, 0xAA))
                     .with_header("x-nonce", c.nonce.to_string())
                     .with_header("x-delay-ms", c.handler_ms.to_string())
+                    .with_header("x-hold-ms", c.hold_ms.to_string())
                     .with_header("x-resp-len", c.resp_len.to_string());
                 w2.event(format!("s{}", c.nonce));
                 let res = match c.abandon_after_us {
@@ -191,6 +199,10 @@ fn run(input: RunInput) -> ScenFuture {
         w.fabric.set_faults_enabled(false);
         // quiescence: every reset/stop has arrived
         sleep_ms(if lossy { idle_ms + ka_ms + 1000 } else { 10 * lat_max / 1000 + 100 }).await;
+        if cpu_bound {
+            // ... and every CPU-bound stretch is over
+            sleep_ms(2_100).await;
+        }
         let connected = client.net.peer(server.peer_id).is_some();
         let results = results.lock().unwrap().clone();
         let seen = h.seen();
@@ -216,8 +228,13 @@ fn run(input: RunInput) -> ScenFuture {
                     if s.at_ns > t_a + bound_ns {
                         w.violate("handler-started-after-abandonment", "abandon", format!("call {}: abandoned at {} ms, yet its handler was started at {} ms (bound {} ms)", c.nonce, t_a / q_ns, s.at_ns / q_ns, bound_ns / q_ns));
                     }
-                    let known_at = t_a.max(s.at_ns);
-                    let natural_end = s.at_ns + c.handler_ms * 1_000_000;
+                    // (a handler that is CPU-bound cannot be dropped before it yields)
+                    let hold_end = s.at_ns + c.hold_ms * 1_000_000;
+                    let known_at = t_a.max(s.at_ns).max(hold_end);
+                    let natural_end = s.at_ns + c.handler_ms.max(c.hold_ms) * 1_000_000;
+                    if c.hold_ms > 0 && t_a < hold_end {
+                        w.probe("abandoned-while-handler-cpu-bound");
+                    }
                     if natural_end > known_at + bound_ns {
                         running_abandons += 1;
                         match (s.dropped_at_ns, s.completed_at_ns) {
